@@ -35,11 +35,18 @@ func zzAdvertisedVersions(h *zzRefHello, specMin uint16, specSV []uint16) []uint
 //verif:stub (*utls.clientHandshakeStateTLS13).handshake zzStubHandshake13
 //verif:stub (*utls.clientHandshakeState).handshake zzStubHandshake12
 //verif:expect entered rejected
-//verif:doc UConn.clientHandshake for every predefined parrot with an arbitrary ServerHello (legacy version, supported_versions value and the last 8 random bytes symbolic): a TLS 1.2 / 1.3 sub-handshake is entered at version v only if v is advertised on the wire (supported_versions entries if the extension is present, else spec minimum .. legacy_version); when TLS 1.3 was offered and v <= 1.2, a ServerHello carrying an RFC 8446 downgrade sentinel is rejected.
+//verif:doc UConn.clientHandshake for every predefined parrot x application Config version bounds {unset, MinVersion=1.0, MinVersion=1.0 and MaxVersion=1.3} with an arbitrary ServerHello (legacy version, supported_versions value and the last 8 random bytes symbolic): a TLS 1.2 / 1.3 sub-handshake is entered at version v only if v is advertised on the wire (supported_versions entries if the extension is present, else spec minimum .. legacy_version); when TLS 1.3 was offered and v <= 1.2, a ServerHello carrying an RFC 8446 downgrade sentinel is rejected.
 func zzC13VersionOnlyIfAdvertised() {
 	p := zzChooseParrot()
 	cfg := zzConfig("example.com")
 	cfg.OmitEmptyPsk = true
+	// the application's own version bounds must not widen what the parrot advertises
+	switch verifChoice("app-config-versions", 3) {
+	case 1:
+		cfg.MinVersion = VersionTLS10
+	case 2:
+		cfg.MinVersion, cfg.MaxVersion = VersionTLS10, VersionTLS13
+	}
 	uc, _, err := zzBuild(p.id, cfg)
 	if err != nil {
 		verifReach("entered")
@@ -60,6 +67,12 @@ func zzC13VersionOnlyIfAdvertised() {
 		specMin = VersionTLS10
 	}
 	adv := zzAdvertisedVersions(&h, specMin, specSV)
+	zzC13Drive(uc, adv, p.name)
+}
+
+// zzC13Drive: an arbitrary ServerHello meets the built hello; the version the
+// client proceeds with must be one of adv.
+func zzC13Drive(uc *UConn, adv []uint16, name string) {
 	sh := &serverHelloMsg{vers: verifU16("sh-vers"), supportedVersion: verifU16("sh-supported-version"), random: make([]byte, 32)}
 	copy(sh.random[24:], verifBytes("sh-random-tail", 8))
 	zzInbox = []any{sh}
@@ -73,8 +86,8 @@ func zzC13VersionOnlyIfAdvertised() {
 		for _, a := range adv {
 			in = verifOr(in, a == v)
 		}
-		verifAssertClass(in, "negotiated-version-was-advertised", p.name)
-		verifAssertClass(zzEntered13 == (v == VersionTLS13), "sub-handshake-matches-version", p.name)
+		verifAssertClass(in, "negotiated-version-was-advertised", name)
+		verifAssertClass(zzEntered13 == (v == VersionTLS13), "sub-handshake-matches-version", name)
 		offered13 := false
 		for _, a := range adv {
 			if a == VersionTLS13 {
@@ -83,10 +96,60 @@ func zzC13VersionOnlyIfAdvertised() {
 		}
 		tail := string(sh.random[24:])
 		if offered13 && v <= VersionTLS12 {
-			verifAssertClass(tail != "DOWNGRD\x01" && tail != "DOWNGRD\x00", "downgrade-sentinel-rejected", p.name)
+			verifAssertClass(tail != "DOWNGRD\x01" && tail != "DOWNGRD\x00", "downgrade-sentinel-rejected", name)
 		}
 	} else {
 		verifReach("rejected")
-		verifAssertClass(herr != nil, "error-when-not-entered", p.name)
+		verifAssertClass(herr != nil, "error-when-not-entered", name)
 	}
+}
+
+//verif:harness C13 custom_spec_version_only_if_advertised unwind=4000 instrs=400000000 paths=100000 wall=1500
+//verif:stub (*utls.Conn).readHandshake zzStubReadHandshake
+//verif:stub (*utls.Conn).sendAlert zzStubSendAlert
+//verif:stub (*utls.clientHandshakeStateTLS13).handshake zzStubHandshake13
+//verif:stub (*utls.clientHandshakeState).handshake zzStubHandshake12
+//verif:expect entered rejected
+//verif:doc The same decision for custom specs that state their versions in every way ApplyPreset accepts: a supported_versions extension listing {1.3,1.2}, {1.3}, {GREASE,1.3,1.2,1.1}, {1.2,1.1,1.0} or {1.2} with TLSVersMin/Max left 0 (derived from the extension), or no supported_versions extension and explicit TLSVersMin in {1.0,1.1,1.2} with TLSVersMax in {1.1,1.2} (min <= max): against an arbitrary ServerHello the client proceeds only at a version the wire hello advertises, and rejects the downgrade sentinels when it offered TLS 1.3.
+func zzC13CustomSpecVersionOnlyIfAdvertised() {
+	var spec ClientHelloSpec
+	var specSV []uint16
+	specMin := uint16(VersionTLS10)
+	lists := [][]uint16{{VersionTLS13, VersionTLS12}, {VersionTLS13}, {GREASE_PLACEHOLDER, VersionTLS13, VersionTLS12, VersionTLS11}, {VersionTLS12, VersionTLS11, VersionTLS10}, {VersionTLS12}}
+	k := verifChoice("version-shape", len(lists)+1)
+	base := []TLSExtension{&SNIExtension{}, &SupportedCurvesExtension{Curves: []CurveID{X25519, CurveP256}}, &SupportedPointsExtension{SupportedPoints: []byte{0}},
+		&SignatureAlgorithmsExtension{SupportedSignatureAlgorithms: []SignatureScheme{ECDSAWithP256AndSHA256, PSSWithSHA256}}}
+	if k < len(lists) {
+		specSV = lists[k]
+		exts := append(base, &KeyShareExtension{KeyShares: []KeyShare{{Group: X25519}}}, &SupportedVersionsExtension{Versions: append([]uint16{}, specSV...)})
+		spec = ClientHelloSpec{CipherSuites: []uint16{TLS_AES_128_GCM_SHA256, TLS_ECDHE_RSA_WITH_AES_128_GCM_SHA256}, CompressionMethods: []uint8{0}, Extensions: exts}
+	} else {
+		mins := []uint16{VersionTLS10, VersionTLS11, VersionTLS12}
+		maxs := []uint16{VersionTLS11, VersionTLS12}
+		mn, mx := mins[verifChoice("spec-min", 3)], maxs[verifChoice("spec-max", 2)]
+		if mn > mx {
+			verifReach("entered")
+			verifReach("rejected")
+			return
+		}
+		specMin = mn
+		spec = ClientHelloSpec{TLSVersMin: mn, TLSVersMax: mx, CipherSuites: []uint16{TLS_ECDHE_RSA_WITH_AES_128_GCM_SHA256, TLS_RSA_WITH_AES_128_CBC_SHA}, CompressionMethods: []uint8{0}, Extensions: base}
+	}
+	cfg := zzConfig("example.com")
+	uc := UClient(&zzRecConn{}, cfg, HelloCustom)
+	if err := uc.ApplyPreset(&spec); err != nil {
+		verifFail("apply-preset", "custom-version-shape")
+		return
+	}
+	if err := uc.BuildHandshakeState(); err != nil {
+		verifFail("build", "custom-version-shape")
+		return
+	}
+	h, why := zzRefParseClientHello(uc.HandshakeState.Hello.Raw)
+	verifAssertClass(why == "", "hello-parses-strictly", "custom-version-shape:"+why)
+	if why != "" {
+		return
+	}
+	adv := zzAdvertisedVersions(&h, specMin, specSV)
+	zzC13Drive(uc, adv, "custom-version-shape")
 }
